@@ -101,6 +101,19 @@ func runSeq(run *hx.Run, seq int, ops []dbx.Op, gen func() (dbx.Op, bool), repli
 							copy(cp, done)
 							run.Violate(hx.Violation{Property: "C10", Clause: "mailbox_on_every_replica", Signature: "restored-replica-mailboxes-differ",
 								What: "a lagging replica that installed a snapshot keeps scheduled or picked-up batches the snapshot's source no longer has (or lacks some): they would be delivered again, or never", Seq: seq, OpIndex: i, Ops: cp})
+							hasKill := false
+							for _, t := range []map[string][]*pb.NodeHostRequest{dc.Requests, dc.Outgoing} {
+								for _, l := range t {
+									for _, rq := range l {
+										hasKill = hasKill || (rq.Change != nil && rq.Change.Type == pb.Request_KILL)
+									}
+								}
+							}
+							if hasKill {
+								// among them kill requests: a request for a replica that is gone and no longer reported is issued again (C11)
+								run.Violate(hx.Violation{Property: "C11", Clause: "kill_stops_when_gone", Signature: "restored-replica-mailboxes-differ",
+									What: "a lagging replica that installed a snapshot still holds kill requests the snapshot's source has already handed out and dropped: the NodeHost is asked again to kill a replica it no longer reports", Seq: seq, OpIndex: i, Ops: cp})
+							}
 						}
 						if dc.LaunchDeadline != da.LaunchDeadline || dc.Failed != da.Failed {
 							cp := make([]dbx.Op, len(done))
